@@ -541,6 +541,56 @@ OWN_ASSERTS = [('assert_equal', 3, 3), ('assert_equal', 3, 4), ('assert_not_equa
                ('assert_is_instance', 3, int), ('assert_is_instance', 'a', int)]
 
 
+LATER_DEFS = {'run-more-code': "def later(x):\n    return x * 2\n",
+              'second-section': None, 'redefined': "def identity(x):\n    return [x]\n"}
+
+
+def body_later(ctx):
+    """A student function that only exists after the first call() was made (more code run, the next section of a
+    sectioned file, a redefinition): assertions about its calls judge what it really returns."""
+    how = list(LATER_DEFS)[ctx.choose(len(LATER_DEFS), 'how-defined')]
+    vi = ctx.choose(4, 'value')
+    v = [3, 'ab', [1], 2.5][vi]
+    first_call = bool(ctx.choose(2, 'a-call-was-made-before'))
+    cmds.clear_report()
+    if how == 'second-section':
+        from pedal.source.sections import separate_into_sections, next_section
+        cmds.contextualize_report("def identity(x):\n    return x\n##### Part 1\ndef later(x):\n    return x * 2\n")
+        separate_into_sections()
+        sb_cmds.run()
+    else:
+        cmds.contextualize_report(STUDENT)
+        sb_cmds.run()
+    if first_call:
+        sb_cmds.call('identity', 1)
+    ctx.step(how)
+    if how == 'second-section':
+        next_section()
+        sb_cmds.run()
+    else:
+        sb_cmds.run(LATER_DEFS[how])
+    fn = 'identity' if how == 'redefined' else 'later'
+    want = [v] if how == 'redefined' else v * 2
+    case = {'defined_by': how, 'function': fn, 'argument': repr(v), 'call_before': first_call}
+    ctx.observe(repr(case))
+    ctx.set_sample(case)
+    ctx.mark_nontrivial(repr(case))
+    try:
+        res = sb_cmds.call(fn, v)
+        ok = silent(R.assert_equal(res, want))
+        res2 = sb_cmds.call(fn, v)
+        nok = silent(R.assert_not_equal(res2, want))
+    except Exception as e:
+        ctx.fail({'symptom': 'assertion on a later-defined function raised', 'exception': type(e).__name__}, case=case)
+        return
+    finally:
+        _fresh()
+    if not ok or nok:
+        ctx.fail({'symptom': 'assertion about a function defined after the first call judges something else',
+                  'equal_passes': ok, 'not_equal_passes': nok}, case=case, returned=repr(unwrap_value(res))[:60], want=repr(want))
+    ctx.outcome('later-ok')
+
+
 def body_own_report(ctx):
     """Assertions addressed to a Report of the caller's own (report= on the calls and on the assertion): the failing
     feedback lands there and only there, and the verdict is the same."""
@@ -596,6 +646,8 @@ def phases(tier):
         Phase('unary', body_unary, setup=_setup, chunk=200, describe='truthiness / None-ness x value x wrapping'),
         Phase('instance-type', body_instance, setup=_setup, chunk=200, describe='instance/type assertions x value x type'),
         Phase('regex', body_regex, setup=_setup, chunk=100, describe='regex assertions x pattern x text'),
+        Phase('later-defined', body_later, setup=_setup, chunk=10,
+              describe='assertions about a function that exists only after the first call() (more code, next section, redefinition)'),
         Phase('own-report', body_own_report, setup=_setup, chunk=100,
               describe='assertions addressed to a caller-owned Report (calls and assertion with report=)'),
         Phase('output', body_output, setup=_setup, chunk=100, describe='output assertions x printing function x text'),
